@@ -15,7 +15,7 @@ Open Scope nat_scope.
 Section P.
 Variable p : prog.
 Hypothesis wfp : wf_prog p.
-Hypothesis pure : pure_effects p.
+Hypothesis nsf : no_self_feed p.
 Notation memob := (memob p).
 Notation effb := (effb p).
 Notation sigb := (sigb p).
@@ -110,7 +110,7 @@ Proof.
         { unfold EffectsProofs.IterPost, EffectsProofs.hasrun in *. rewrite E1. nsimpl. split; auto.
           intros H1 H2 H3 H4. apply (Lclean_ext p s s1 e); [rewrite E1; reflexivity| |auto].
           intros x v _ _ Hx. rewrite Hs1; auto. }
-        destruct (eff_iter_spec p wfp e k b h s1 pure Hde I1 Ha1 Hp1 IP) as (I2 & IP2' & S2).
+        destruct (eff_iter_spec p wfp e k b h s1 nsf Hde I1 Ha1 Hp1 IP) as (I2 & IP2' & S2).
         set (s2 := eff_iter p (eff_check p) e (updn e (fun n => set_eflag n false) s1)) in *.
         destruct (IH s2) as (I3 & H3); auto.
         -- rewrite (static_epoll s1 _ e S2). exact Hp1.
@@ -427,6 +427,7 @@ Proof.
     + intros j. rewrite getn_init0. destruct (H j) as (_&->&_). constructor.
     + intros j k. rewrite getn_init0. destruct (H j) as (_&->&_). intros [].
     + intros j k. rewrite getn_init0. destruct (H k) as (->&_). intros [].
+    + intros i j. rewrite getn_init0. destruct (H i) as (->&_). intros [].
   - reflexivity.
   - reflexivity.
   - intros i _. destruct (H i) as (Hs&_&Hr&Hc&Hst&Hd&_).
@@ -524,9 +525,9 @@ Proof.
   { apply InvBut_updn; [apply Inv_InvBut; auto|]. intros n. unfold core_same, f0; nsimpl; intuition. }
   assert (Qa : queue_ok sa i).
   { unfold GraphInvariant.queue_ok, queue_ok_n. rewrite Hde, Ea. unfold f0. nsimpl. intros _. split; discriminate. }
-  destruct (pure i ERender b h Hde) as (Hokb & _).
+  destruct (nsf_body_ok p wfp i ERender b h nsf Hde) as (Hokb & _).
   destruct (eval p (read_any p) true (Some i, true) b (begin_run true i (clear_sources i sa))) as [s2 v] eqn:Ev.
-  destruct (eff_body_spec p wfp true i b sa s2 v IBa Qa He Hokb) as (I2 & P2 & Hc2 & Hcl2 & Hd2 & _); auto.
+  destruct (eff_body_spec p wfp true i b sa s2 v IBa Qa He Hokb) as (I2 & P2 & Hc2 & Hcl2 & Hd2); auto.
   { rewrite Ea. unfold f0. nsimpl. reflexivity. }
   set (s3 := emit (EvEnd i v) s2).
   assert (I3 : Inv0 s3) by (apply Inv_emit; auto).
@@ -659,17 +660,17 @@ Proof.
   { apply InvBut_updn; [apply Inv_InvBut; auto|]. intros n. unfold core_same, f0; nsimpl; intuition. }
   assert (Qa : queue_ok sa i).
   { unfold GraphInvariant.queue_ok, queue_ok_n. rewrite Hde, Ea. unfold f0. nsimpl. intros _. split; discriminate. }
-  destruct (pure i ERender b h Hde) as (Hokb & _).
+  destruct (nsf_body_ok p wfp i ERender b h nsf Hde) as (Hokb & _).
   destruct (eval p (read_any p) true (Some i, true) b (begin_run true i (clear_sources i sa))) as [s2 v] eqn:Ev.
   destruct (eff_body_spec p wfp true i b sa s2 v IBa Qa He Hokb) as (I2 & P2 & _); auto.
   { rewrite Ea. unfold f0. nsimpl. reflexivity. }
   assert (Hei2 : i < nlen s2) by (rewrite (wf_len p s2 (inv_wf _ _ _ _ I2)); auto).
   split.
-  - rewrite Hq. cbn. rewrite (pr_halted _ _ _ _ _ _ P2). reflexivity.
+  - rewrite Hq. cbn. rewrite (proj2 P2). reflexivity.
   - intros x. rewrite getn_enqueue, andb_true_r. destruct (Nat.eqb_spec x i) as [->|Hx].
     + rewrite getn_updn_same by (rewrite nlen_emit; auto). reflexivity.
     + rewrite getn_updn_other by auto. rewrite getn_emit.
-      destruct (pr_eff _ _ _ _ _ _ P2 x) as (_&_&_&_&_&->). unfold sa. rewrite getn_updn_other; auto.
+      destruct (proj1 P2 x) as (_&_&_&_&_&->). unfold sa. rewrite getn_updn_other; auto.
 Qed.
 
 Lemma init_spawned :
